@@ -102,9 +102,14 @@ class CreateSubscription(Obligation):
         # one existing subscription slot
         eu, et = p.fresh('e_used', 'bool'), p.fresh('e_tok')
         ename = mk(ctx, 'SubscriptionName', project_id=StrTok(U['sub_proj'](et)), subscription_id=StrTok(U['sub_id'](et)))
-        state = mk(ctx, 'State', 'subscriptions/subscription_manager', subscriptions=MapM([(eu, ename, ArcTok(et, 'Subscription'))]),
+        state = mk_opt(ctx, 'State', 'subscriptions/subscription_manager', subscriptions=MapM([(eu, ename, ArcTok(et, 'Subscription'))]),
                    next_id=S(p.fresh('next_id'), 'u32'))
-        p.assume(z3.And(state.fields[1].t >= 1, state.fields[1].t < (1 << 31)))
+        self.has_counter = has_field(ctx, 'State', 'next_id', 'subscriptions/subscription_manager')
+        nid0 = None
+        if self.has_counter:
+            nid0 = fld(ctx, state, 'State', 'next_id', 'subscriptions/subscription_manager').t
+            p.assume(z3.And(nid0 >= 1, nid0 < (1 << 31)))
+            p.assume(z3.Implies(eu, U['sub_iid'](et) <= nid0))     # manager invariant: ids in use never exceed next_id
         self_cell = Cell(state, 'state')
         lock = ArcCell(Cell(LockM('subscription_manager.state', self_cell)))
         mgr = mk(ctx, 'SubscriptionManager', state=lock, push_registry=Opaque('push_registry'))
@@ -119,7 +124,7 @@ class CreateSubscription(Obligation):
         same_project = U['topic_proj'](topic_tok) == nproj
         exists = z3.And(eu, U['sub_proj'](et) == nproj, U['sub_id'](et) == nid)
         return {'susp': susp, 'res': res, 'log': list(p.log), 'k': k, 'same_project': same_project, 'exists': exists,
-                'state': self_cell}
+                'state': self_cell, 'next_id': nid0, 'e_used': eu, 'e_iid': U['sub_iid'](et)}
 
     def post(self, ip, p, res):
         out = []
@@ -140,6 +145,14 @@ class CreateSubscription(Obligation):
             out.append(Claim('Ok implies same project and name was absent', z3.And(res['same_project'], z3.Not(res['exists']))))
             enq = [e for e in m if e[0] == 'enqueue'][0]
             out.append(Claim('attach goes to the topic the subscription was created on', enq[1] == 'topic'))
+            newsub = read_loc(r.payload[0][0].deref_loc(ip))
+            iid = fld(ip.ctx, newsub, 'Subscription', 'internal_id', 'subscriptions/subscription').t
+            if self.has_counter:
+                nid2 = fld(ip.ctx, res['state'].v, 'State', 'next_id', 'subscriptions/subscription_manager').t
+                out.append(Claim('new internal id == next_id + 1, above every id in use (creation order = id order, ids never reused)',
+                                 z3.And(iid == res['next_id'] + 1, nid2 == res['next_id'] + 1, z3.Implies(res['e_used'], res['e_iid'] < iid))))
+            else:
+                out.append(Claim('new internal id is above every id in use (creation order = id order)', z3.Implies(res['e_used'], res['e_iid'] < iid)))
             out.append(Cover('created'))
         else:
             e = r.payload[1][0]
